@@ -19,7 +19,9 @@ GLOBAL = "<global>"
 
 VIEW_METHODS = {"reshape", "ravel", "view", "squeeze", "transpose", "swapaxes", "T", "flat", "real", "imag", "values", "items", "keys", "get", "pop", "setdefault", "__getitem__"}
 COPY_METHODS = {"copy", "astype", "tolist", "flatten", "__deepcopy__", "item", "sum", "mean", "max", "min", "dot", "total_seconds", "lower", "upper", "format"}
-MUTATOR_METHODS = {"append", "extend", "insert", "pop", "remove", "sort", "clear", "update", "setdefault", "fill", "put", "resize", "reverse", "popitem", "itemset", "setflags", "partition", "add", "discard"}
+MUTATOR_METHODS = {"append", "extend", "insert", "pop", "remove", "sort", "clear", "update", "setdefault", "fill", "put", "resize", "reverse", "popitem", "itemset", "setflags", "partition", "add", "discard",
+                   # scipy.sparse: in-place re-organisation of the index / data arrays
+                   "sum_duplicates", "sort_indices", "eliminate_zeros", "prune", "setdiag"}
 VIEW_FUNCS = {"np.asarray", "np.atleast_1d", "np.atleast_2d", "np.atleast_3d", "np.squeeze", "np.transpose", "np.swapaxes", "np.moveaxis", "np.reshape", "np.ravel", "np.flip", "np.fliplr", "np.flipud",
               "np.asfortranarray", "np.ascontiguousarray", "np.expand_dims", "np.broadcast_to", "np.rollaxis", "skimage.img_as_float", "skimage.img_as_float32", "skimage.img_as_float64",
               "skimage.img_as_ubyte", "skimage.img_as_uint", "skimage.img_as_bool", "skimage.img_as_int", "np.real", "np.diagonal"}
